@@ -1,8 +1,8 @@
 SPECIFICATION Spec
 CONSTANTS
   Depth = 2
-  DeepIds = {1, 2, 3, 4, 5}
-  BaseIds = {1, 2, 3, 4, 5}
+  DeepIds = {1, 2, 3, 4, 5, 6}
+  BaseIds = {1, 2, 3, 4, 5, 6}
   KindIds = {1, 2, 3, 4, 5}
   FinalKindIds = {}
   SampleMod = 1
